@@ -16,7 +16,7 @@ LEVEL_TEXT = ("Static structural proof of necessary conditions: (R13.1) HedSchem
               "storing it; (R13.3) the duplicate-library refusal runs before any schema is loaded, the clashing-name "
               "refusal follows every merge, the duplicate-prefix refusal dominates the group table. Equivalence of "
               "prefixed and unprefixed judgement and 'standard is contained in partnered library' are NOT decided.")
-LEVEL_EXTRA = 'Added after the seeded evaluation: (R13.4) namespace prefixes removed by length, the per-entry prefix established afresh in each iteration; (R13.5) a value stored in a per-object cache of the schema classes depends only on arguments its key depends on. (R13.6) the memoised standard schema is deep-copied before a library is merged into it. (R13.7) the capitalisation check splits the tag text without its namespace; the duplicate-library refusal is keyed by the library name. (R13.8) the prefix table is consulted with the prefix exactly as written.'
+LEVEL_EXTRA = 'Added after the seeded evaluation: (R13.4) namespace prefixes removed by length, the per-entry prefix established afresh in each iteration; (R13.5) a value stored in a per-object cache of the schema classes depends only on arguments its key depends on. (R13.6) the memoised standard schema is deep-copied before a library is merged into it. (R13.7) the capitalisation check splits the tag text without its namespace; the duplicate-library refusal is keyed by the library name. (R13.8) the prefix table is consulted with the prefix exactly as written. (R13.9) the prefix taken from the annotation is returned as written; (R13.10) tag entries are finalised with the namespace-free lookup.'
 
 SCHEMA_RECEIVERS = {"hed_schema", "_hed_schema", "_schema", "schema"}
 USER_PACKAGES = ("hed.validator", "hed.models", "hed.errors")
@@ -349,3 +349,39 @@ def run(ctx):
     n13 = check_uniform(ctx, "R13.8", acc13, {"raw"}, "the prefix table `_schemas`",
                         "`SC:Event` is identified under the schema loaded as `sc:` although `SC:` is not a loaded prefix")
     ctx.floor("R13.8", "lookups in the prefix table", n13, 1)
+
+    # ---------------- R13.9: the namespace taken from the annotation is the text as written
+    ctx.rule("R13.9", "HedTag._get_schema_namespace returns the prefix exactly as written (no case normalisation)")
+    gsn = prog.find_class("HedTag").methods.get("_get_schema_namespace")
+    if gsn is None:
+        raise AnalysisError("anchor HedTag._get_schema_namespace vanished")
+    ctx.saw(gsn)
+    n139 = 0
+    for r in walk_no_nested(gsn.node):
+        if isinstance(r, ast.Return) and r.value is not None:
+            n139 += 1
+            bad = [x for x in ast.walk(r.value) if isinstance(x, ast.Call) and isinstance(x.func, ast.Attribute)
+                   and x.func.attr in ("casefold", "lower", "upper", "title", "capitalize", "swapcase")]
+            ctx.check(not bad, "R13.9", gsn.qualname, r, loc(gsn, r),
+                      "the prefix is case-normalised before it is looked up: `SC:Event` is accepted under the schema loaded as `sc:` "
+                      "although `SC:` is not a loaded prefix (and a schema loaded under a prefix with capitals becomes unreachable)",
+                      desc="prefix returned as written")
+    ctx.floor("R13.9", "returns of _get_schema_namespace", n139, 2)
+
+    # ---------------- R13.10: entries are finalised with the schema's namespace-free lookup
+    ctx.rule("R13.10", "HedTagEntry finalisation resolves names with the private namespace-free lookup of the schema")
+    hte = prog.find_class("HedTagEntry")
+    n1310 = 0
+    for m in hte.methods.values():
+        if not m.name.startswith(("finalize", "_finalize")):
+            continue
+        for c in walk_no_nested(m.node):
+            if isinstance(c, ast.Call) and isinstance(c.func, ast.Attribute) and c.func.attr in ("get_tag_entry", "_get_tag_entry", "find_tag_entry") \
+                    and isinstance(c.func.value, ast.Name) and c.func.value.id == "schema":
+                n1310 += 1
+                ctx.saw(m)
+                ctx.check(c.func.attr == "_get_tag_entry", "R13.10", m.qualname, c, loc(m, c),
+                          "an entry is finalised through the public lookup, which answers None when the schema carries a namespace and "
+                          "none is passed: every entry of a schema (re)finalised under a prefix loses its parent / takes-value child",
+                          desc="%s uses the namespace-free lookup" % m.short)
+    ctx.floor("R13.10", "schema lookups while finalising tag entries", n1310, 2)
